@@ -280,6 +280,7 @@ def grid_files(draw):
     lat_inc, long_inc = draw(st.sampled_from(pool)), draw(st.sampled_from(pool))
     nrows = draw(st.one_of(st.integers(3, 12), st.integers(3, 60)))
     ncols = draw(st.one_of(st.integers(3, 12), st.integers(3, 60)))
+    m1 = 1
     if cls == "micro":
         (lat_inc, m1), (long_inc, m2) = draw(st.sampled_from(INC_MICRO)), draw(st.sampled_from(INC_MICRO))
         nrows = m1 * draw(st.integers(1, max(1, 48 // m1))) + 1
@@ -331,7 +332,9 @@ def grid_files(draw):
             q_lat = round(s_lat + span_lat + draw(st.sampled_from([0.0, 3600.0, 30.0])), 3)
             if q_lat + 10 * lat_inc < 89 * 3600:
                 subs.append({"name": "OTHER", "parent": "NONE", "s_lat": q_lat, "e_long": e_long, "lat_inc": lat_inc,
-                             "long_inc": draw(st.sampled_from(pool)), "nrows": draw(st.integers(3, 10)),
+                             "long_inc": draw(st.sampled_from(pool)),
+                             # (rows in whole multiples of m1 so that the northern limit has three decimals, as for the parent)
+                             "nrows": (draw(st.integers(3, 10)) if m1 == 1 else m1 * draw(st.integers(1, max(1, 10 // m1))) + 1),
                              "ncols": draw(st.integers(3, 10)), "fields": draw(_fields())})
     if len(subs) > 1 and draw(st.integers(0, 3)) == 0:
         subs = list(draw(st.permutations(subs)))
@@ -373,6 +376,6 @@ def _classes(case):
 SUBCHECKS = [
     SubCheck("files_and_queries", check_file, strategy=grid_files(), nontrivial=_nt, classes=_classes,
              quick=640, thorough=24000, shards_quick=8, shards_thorough=16,
-             rule="per generated file: metadata reads back exactly; per query: selected (finest) sub-grid, bilinear = exact 4-node "
+             fresh=(8, 64, 3), rule="per generated file: metadata reads back exactly; per query: selected (finest) sub-grid, bilinear = exact 4-node "
                   "blend, node values, linear / bi-quadratic reproduction, None + ValueError outside, ntv2_2d sign convention"),
 ]
